@@ -1,5 +1,6 @@
 """Per-property correspondence + oracle runs.  Each runner gets the Run (reporting) and ctx."""
 import json
+import re
 import os
 from collections import Counter
 
@@ -517,6 +518,30 @@ def c10(R, ctx):
         if r != "SAME":
             R.violation("c10:source", "decoding %s differs for byte source kind %s" % (c[1], r), replay_of(c, "1", r))
     R.coverage["source_kind_runs"] = len(sample) * 7
+    # the same for the container front-ends: whole containers and their prefixes (cut anywhere, and inside section
+    # markers of an swtpm log), every kind of iterable
+    freqs, fmeta = [], []
+    for s_ in C.streams(n=6, maxpairs=2):
+        data, parts = s_[2], s_[3]["parts"]
+        conts = [("hex", render_hex(R.rng, data)), ("swtpm", render_swtpm(R.rng, parts, R.rng.choice(["plain", "plain", "withS"])))]
+        for kind, text in conts:
+            cutpos = {len(text)} | {R.rng.randrange(len(text) + 1) for _ in range(4)}
+            if kind == "swtpm":
+                marks = [m.start() for m in re.finditer(b"SWTPM_IO", text)]
+                for m0 in marks[:1] + (R.rng.sample(marks, 1) if marks else []):
+                    cutpos |= {m0 + k for k in (1, 4, 7, 8)}
+                    cutpos.add(max(0, m0 - 1))
+            for k in sorted(cutpos):
+                for fe in (kind,):      # the property's front-ends: hex and swtpm-log (auto-detection is C15's)
+                    mode = R.rng.choice(["1", "0"])
+                    freqs.append("fesrc %s %s S %s" % (fe, mode, h(text[:k])))
+                    fmeta.append((fe, mode, text[:k]))
+    fres = common.run_impl("impl_worker", freqs)
+    for (fe, mode, text), r, q in zip(fmeta, fres, freqs):
+        if r != "SAME":
+            R.violation("c10:source:" + fe, "decoding through the %s front-end differs for byte source kind %s" % (fe, r[:200]),
+                        {"front_end": fe, "strict": mode == "1", "container_hex": h(text), "result": r, "how": "harness/impl_worker.py: " + q[:80] + "..."})
+    R.coverage["front_end_source_kind_runs"] = len(freqs) * 7
     bad = correspondence(R, ctx, reqs, impl, model, what="events, pull count of every event, outcome")
     report_disagreements(R, ctx, reqs, impl, model, bad, flagged)
     distribution(R, cases, impl)
@@ -672,6 +697,12 @@ def c18(R, ctx):
         for low in range(4096):
             if low & 0x180:
                 vals.append(hi | low)
+    # words outside the TPM 2.0 layouts (bits 7 and 8 clear, i.e. TPM 1.2 style, incl. a zero low part under reserved
+    # high bits): the format rules say nothing about their text except that only the zero WORD is SUCCESS; model
+    # correspondence, the partition of the rows and the shown rows are checked on them too
+    n20 = len(vals)
+    lows12 = [0, 1, 0x7F, 0x400, 0x800, 0xC7F] + [R.rng.randrange(4096) & ~0x180 for _ in range(12)]
+    vals += [hi | low for hi in highs for low in lows12 if (hi | low) != 0]
     reqs = ["rc cur %d" % v for v in vals]
     impl = common.run_impl("impl_worker", reqs)
     model = common.run_model(reqs) if ctx["driver_ok"] else impl
@@ -681,8 +712,10 @@ def c18(R, ctx):
         text, rows, shown = (impl[k].split("|") + ["", ""])[:3]
         impl[k] = text + "|" + rows          # the model has no printer: correspondence on text and attribute rows
         problem = None
-        if spec is not None and text != spec[k]:
+        if k < n20 and spec is not None and text != spec[k]:
             problem = "text form is %r, the TPM 2.0 format rules give %r" % (text, spec[k])
+        elif k >= n20 and text == "TPM_RC.SUCCESS":
+            problem = "text form of a non-zero word is SUCCESS"
         elif v != 0:
             union = 0
             for r in rows.split(","):
@@ -694,7 +727,7 @@ def c18(R, ctx):
                 if union & m:
                     problem = "bit rows overlap at %#x" % (union & m)
                 union |= m
-            if problem is None and union != 0xFFFFFFFF:
+            if problem is None and union != 0xFFFFFFFF and k < n20:
                 problem = "bit rows leave %#x uncovered" % (0xFFFFFFFF ^ union)
             if problem is None:
                 # the rows as SHOWN by the pretty printer: 32 positions, the field's bits at its positions, dots elsewhere
@@ -714,7 +747,8 @@ def c18(R, ctx):
     R.coverage.update({"correspondence_cases": len(reqs), "correspondence_disagreements": len(bad),
                        "correspondence_compares": "str(TPM_RC(v)) and every attributes() row (name, mask, details up to ':')",
                        "evaluations": len(reqs), "distinct_nontrivial": len(set(vals)), "exhaustive": True,
-                       "rule": "all 4096 low-12-bit values with bit 7 or bit 8 set, plus zero, each with several settings of the reserved high bits",
+                       "rule": "all 4096 low-12-bit values with bit 7 or bit 8 set, plus zero, each with several settings of the reserved high bits; plus words outside the TPM 2.0 layouts (bits 7, 8 clear; zero low part under reserved high bits) for correspondence, SUCCESS-only-for-zero, disjoint rows and the shown rows (the partition clause speaks about TPM 2.0 codes only: the TPM 1.2 layout leaves its reserved bit 9 unshown)",
+                       "outside_tpm20_layout": len(vals) - n20,
                        "samples": [{"request": reqs[i], "implementation": impl[i]} for i in (1, len(reqs) // 3)]})
     for k in bad:
         if k not in flagged:
@@ -872,8 +906,19 @@ def c12(R, ctx):
         aborted.append([(c[1], c[2]), (c[1], cut), (c[1], c[2])])
         aborted.append([(c[1], c[2]), (c[1], big), (c[1], c[2])])
         pool.append((c[1], cut))
+    # pcapng captures with different link layers (the reader tries raw IP, then Ethernet, per package)
+    captures = []
+    for _ in range(4 if ctx["tier"] == "quick" else 16):
+        a, b = C.G.pair(), C.G.pair()
+        pa, pb = "+".join([a[0].hex(), a[2].hex()]), "+".join([b[0].hex(), b[2].hex()])
+        e1, e2 = R.rng.choice([("Peth", "Pip"), ("Pip", "Peth")])
+        captures.append([(e1, pa), (e2, pb), (e1, pa)])
+        captures.append([(e1, pa), (e2, pa)])
     reqs = []
     hist = []
+    for items in captures:
+        hist.append(items)
+        reqs.append("hist " + ",".join("%s~%s" % (root, b) for root, b in items))
     for items in same_cc + aborted:
         hist.append(items)
         reqs.append("hist " + ",".join("%s~%s" % (root, h(b)) for root, b in items))
@@ -891,10 +936,10 @@ def c12(R, ctx):
             enc_hist += 1
         if not r.startswith("OK"):
             R.violation("c12:" + r.split(" ")[1], "decoding the same input again in one process gives a result that does not compare equal (%s); history of %d decodes"
-                        % (r, len(items)), {"history": [{"root": root, "input_hex": h(b)} for root, b in items], "result": r,
+                        % (r, len(items)), {"history": [{"root": root, "input_hex": (b if isinstance(b, str) else h(b))} for root, b in items], "result": r,
                                             "how": "harness/impl_worker.py: " + q[:200]})
     R.coverage.update({"evaluations": len(reqs), "distinct_nontrivial": len(set(reqs)),
-                       "rule": "histories of 2-5 decodes drawn from messages with encrypted parameter areas of different commands (commands and responses), ordinary pairs and structure-type roots incl. inputs cut inside a size-prefixed region or with an oversized inner size (decodes ending in an exception); each history is run in warn mode and in strict mode, sequentially twice and step-wise interleaved (round robin over next()); results compared with Python == (events, by-product objects, objects rebuilt from events); distinct = distinct histories",
+                       "rule": "histories of 2-5 decodes drawn from messages with encrypted parameter areas of different commands (commands and responses), ordinary pairs, pcapng captures with raw-IP and Ethernet link layers (also compared with the decode of the carried bytes) and structure-type roots incl. inputs cut inside a size-prefixed region or with an oversized inner size (decodes ending in an exception); each history is run in warn mode and in strict mode, sequentially twice and step-wise interleaved (round robin over next()); results compared with Python == (events, by-product objects, objects rebuilt from events); distinct = distinct histories",
                        "histories_with_two_or_more_encrypted_areas": enc_hist,
                        "samples": [{"history": reqs[0][:300], "result": res[0]}],
                        "correspondence_compares": "Model/Cache.v capacity = lru_cache(maxsize) read from /repo by the translator: %r" % (cur["cache"],)})
@@ -1152,6 +1197,20 @@ def c11(R, ctx):
                     {"request": breqs[k], "implementation": bimpl[k][:2000], "model": bmodel[k][:2000], "decoder_object": impl[k][:2000],
                      "theorem": "C11_decoded_events_rebuild_the_returned_object / correspondence events_to_obj"}, found_input=found)
         break
+    # the stream root: events_to_objs gives one object per message (also for a last command without its response),
+    # each equal to the object built from that message on its own
+    streams = C.streams(n=16, maxpairs=3)
+    sreqs = ["stream9 " + ",".join(h(p) for p in s[3]["parts"]) for s in streams]
+    sres = common.run_impl("impl_worker", sreqs)
+    sok = 0
+    for s_, r, q in zip(streams, sres, sreqs):
+        if r.startswith("OK"):
+            sok += 1
+        elif r.startswith("BAD") and ("object" in r or "events_to_objs" in r):
+            R.violation("c11:stream-" + r.split(" ")[1], "events_to_objs on a stream of %d messages: %s" % (len(s_[3]["parts"]), r[:300]),
+                        {"parts_hex": [h(p) for p in s_[3]["parts"]], "result": r, "how": "harness/impl_worker.py: " + q[:120] + "..."})
+    R.coverage["stream_object_lists_checked"] = sok
+    R.coverage["stream_messages"] = dict(Counter(len(s_[3]["parts"]) for s_ in streams))
     r1, _ = engine(R, ctx, cases, modes=("1",))
     distribution(R, cases, r1["1"][1])
 
@@ -1744,16 +1803,27 @@ def c19(R, ctx):
             open(path, "wb").write(c[2])
             tfiles.append(("bin", ["binary"], path))
         tfiles.append(("bin", ["binary"], os.path.join(tmp, "edge_getrandom")))
-        texp = common.run_impl("impl_worker", ["typeexp binary %s" % f[2] for f in tfiles], nproc=4)
-        for f, e in zip(tfiles, texp):
-            rc, out, err = run_cli(["type", "--in", "binary", f[2]])
+        # the same files as hex text (whitespace between and inside pairs), read with --in hex
+        tjobs = [("binary", f[2]) for f in tfiles]
+        for f in tfiles[:(1 if ctx["tier"] == "quick" else 4)] + tfiles[-1:]:
+            hp = f[2] + ".hex"
+            raw = open(f[2], "rb").read()
+            ht = render_hex(R.rng, raw)
+            i0 = next((i for i, ch in enumerate(ht) if ch in b"0123456789abcdefABCDEF"), None)
+            if i0 is not None and R.rng.random() < 0.7:
+                ht = ht[:i0 + 1] + R.rng.choice([b"\n", b" ", b"\r\n", b"\t"]) + ht[i0 + 1:]     # the first pair is split
+            open(hp, "wb").write(ht)
+            tjobs.append(("hex", hp))
+        texp = common.run_impl("impl_worker", ["typeexp %s %s" % j for j in tjobs], nproc=4)
+        for (fmt, fpath), e in zip(tjobs, texp):
+            rc, out, err = run_cli(["type", "--in", fmt, fpath])
             n_runs += 1
             got = [l for l in out.split("\n") if l.strip()]
             want = [x for x in e.split("\x1f") if x]
             if rc not in (0, None) or got != want:
-                R.violation("c19:type", "`tpmstream type` lists %d entries, strict decoding succeeds under %d types (first difference: %r)"
-                            % (len(got), len(want), sorted(set(got) ^ set(want))[:3]),
-                            {"argv": ["type", "--in", "binary", f[2]], "file_hex": h(open(f[2], "rb").read()), "stdout": got[:100], "expected": want[:100], "stderr": err[-500:]})
+                R.violation("c19:type", "`tpmstream type --in %s` lists %d entries, strict decoding succeeds under %d types (first difference: %r)"
+                            % (fmt, len(got), len(want), sorted(set(got) ^ set(want))[:3]),
+                            {"argv": ["type", "--in", fmt, fpath], "file_hex": h(open(fpath, "rb").read()), "stdout": got[:100], "expected": want[:100], "stderr": err[-500:]})
         # `example X`
         names = R.rng.sample(sorted(ccnames.values()), 2 if ctx["tier"] == "quick" else 20) + (["TPM2B_DIGEST"] if ctx["tier"] == "quick" else ["TPM2B_DIGEST", "TPMT_PUBLIC", "TPMA_SESSION"])
         blocks_checked = 0
